@@ -70,13 +70,29 @@ pub fn make_base() -> Base {
 }
 
 /// offsets (start, len) of every LEB128 field met while parsing `b` as `ty` with the wire reader
-fn leb_fields(ty: &str, b: &[u8]) -> (Vec<(usize, usize)>, Vec<(usize, usize, usize)>) {
+type ListSpan = (usize, usize, Vec<(usize, usize)>);
+
+fn leb_fields(ty: &str, b: &[u8]) -> (Vec<(usize, usize)>, Vec<(usize, usize, usize)>, Vec<ListSpan>) {
     // re-parse and find fields by re-encoding prefixes: simpler approach — scan with the structural reader
     // and note where each leb starts by instrumenting a tiny reader here.
     use crate::wire::sz;
     let mut out = vec![];
     // (start of the length field, its size, length of the byte run it announces)
     let runs = std::cell::RefCell::new(Vec::<(usize, usize, usize)>::new());
+    // counted lists: (start of the count field, its size, spans of the elements)
+    let lists = std::cell::RefCell::new(Vec::<ListSpan>::new());
+    let open_list = |out: &Vec<(usize, usize)>| -> usize {
+        let (s0, l0) = *out.last().unwrap();
+        lists.borrow_mut().push((s0, l0, vec![]));
+        lists.borrow().len() - 1
+    };
+    let elem = |k: usize, a: usize, e: usize| lists.borrow_mut()[k].2.push((a, e));
+    let fixed_list = |out: &Vec<(usize, usize)>, p: usize, n: usize, size: usize| {
+        let k = open_list(out);
+        for i in 0..n.min(1 << 16) {
+            elem(k, p + i * size, p + (i + 1) * size);
+        }
+    };
     let mut p = 0usize;
     let mut rd_leb = |p: &mut usize, out: &mut Vec<(usize, usize)>| -> Option<u64> {
         let start = *p;
@@ -106,20 +122,26 @@ fn leb_fields(ty: &str, b: &[u8]) -> (Vec<(usize, usize)>, Vec<(usize, usize, us
             rd_leb(p, out)?;
         }
         let nd = rd_leb(p, out)?;
+        let kd = open_list(out);
         for _ in 0..nd {
+            let d0 = *p;
             let l = rd_leb(p, out)? as usize;
             runs.borrow_mut().push((out.last().unwrap().0, out.last().unwrap().1, l));
             skip(p, l);
             rd_leb(p, out)?;
             let na = rd_leb(p, out)?;
+            let ka = open_list(out);
             for _ in 0..na {
+                let a0 = *p;
                 let l = rd_leb(p, out)? as usize;
                 runs.borrow_mut().push((out.last().unwrap().0, out.last().unwrap().1, l));
                 skip(p, l);
                 rd_leb(p, out)?;
                 rd_leb(p, out)?;
                 rd_leb(p, out)?;
+                elem(ka, a0, *p);
             }
+            elem(kd, d0, *p);
         }
         Some(())
     };
@@ -137,9 +159,11 @@ fn leb_fields(ty: &str, b: &[u8]) -> (Vec<(usize, usize)>, Vec<(usize, usize, us
             "enc" | "hdr" => {
                 skip(&mut p, 16);
                 let n = rd_leb(&mut p, &mut out)? as usize;
+                fixed_list(&out, p, n, sz::PK);
                 skip(&mut p, n * sz::PK);
                 let f = rd_leb(&mut p, &mut out)?;
                 let l = rd_leb(&mut p, &mut out)? as usize;
+                fixed_list(&out, p, l, 32 + if f == 1 { sz::ENC } else { 0 });
                 skip(&mut p, l * (32 + if f == 1 { sz::ENC } else { 0 }));
                 if ty == "hdr" {
                     let l = rd_leb(&mut p, &mut out)? as usize;
@@ -148,51 +172,74 @@ fn leb_fields(ty: &str, b: &[u8]) -> (Vec<(usize, usize)>, Vec<(usize, usize, us
             }
             "usk" => {
                 let n = rd_leb(&mut p, &mut out)? as usize;
+                fixed_list(&out, p, n, sz::SK);
                 skip(&mut p, n * sz::SK);
                 let n = rd_leb(&mut p, &mut out)? as usize;
+                fixed_list(&out, p, n, sz::PK);
                 skip(&mut p, n * sz::PK);
                 let nc = rd_leb(&mut p, &mut out)?;
+                let kc = open_list(&out);
                 for _ in 0..nc {
+                    let c0 = p;
                     let l = rd_leb(&mut p, &mut out)? as usize;
                     runs.borrow_mut().push((out.last().unwrap().0, out.last().unwrap().1, l));
                     skip(&mut p, l);
                     let nk = rd_leb(&mut p, &mut out)?;
+                    let kk = open_list(&out);
                     for _ in 0..nk {
+                        let k0 = p;
                         key(&mut p, &mut out, sz::SK, sz::DK)?;
+                        elem(kk, k0, p);
                     }
+                    elem(kc, c0, p);
                 }
             }
             "mpk" => {
                 let n = rd_leb(&mut p, &mut out)? as usize;
+                fixed_list(&out, p, n, sz::PK);
                 skip(&mut p, n * sz::PK);
                 let nc = rd_leb(&mut p, &mut out)?;
+                let kc = open_list(&out);
                 for _ in 0..nc {
+                    let c0 = p;
                     let l = rd_leb(&mut p, &mut out)? as usize;
                     runs.borrow_mut().push((out.last().unwrap().0, out.last().unwrap().1, l));
                     skip(&mut p, l);
                     key(&mut p, &mut out, sz::PK, sz::EK)?;
+                    elem(kc, c0, p);
                 }
                 structure(&mut p, &mut out)?;
             }
             "msk" => {
                 skip(&mut p, sz::SK);
                 let n = rd_leb(&mut p, &mut out)? as usize;
+                fixed_list(&out, p, n, sz::SK + sz::PK);
                 skip(&mut p, n * (sz::SK + sz::PK));
                 let nu = rd_leb(&mut p, &mut out)?;
+                let ku = open_list(&out);
                 for _ in 0..nu {
+                    let u0 = p;
                     let l = rd_leb(&mut p, &mut out)? as usize;
+                    fixed_list(&out, p, l, sz::SK);
                     skip(&mut p, l * sz::SK);
+                    elem(ku, u0, p);
                 }
                 let nc = rd_leb(&mut p, &mut out)?;
+                let kc = open_list(&out);
                 for _ in 0..nc {
+                    let c0 = p;
                     let l = rd_leb(&mut p, &mut out)? as usize;
                     runs.borrow_mut().push((out.last().unwrap().0, out.last().unwrap().1, l));
                     skip(&mut p, l);
                     let nk = rd_leb(&mut p, &mut out)?;
+                    let kk = open_list(&out);
                     for _ in 0..nk {
+                        let k0 = p;
                         rd_leb(&mut p, &mut out)?;
                         key(&mut p, &mut out, sz::SK, sz::DK)?;
+                        elem(kk, k0, p);
                     }
+                    elem(kc, c0, p);
                 }
                 skip(&mut p, 16);
                 structure(&mut p, &mut out)?;
@@ -202,7 +249,8 @@ fn leb_fields(ty: &str, b: &[u8]) -> (Vec<(usize, usize)>, Vec<(usize, usize, us
         Some(())
     })();
     let runs = runs.into_inner();
-    (out, runs)
+    let lists = lists.into_inner().into_iter().filter(|(_, _, e)| e.iter().all(|(a, z)| a <= z && *z <= b.len())).collect();
+    (out, runs, lists)
 }
 
 pub fn mutants(tier: &str, seed: u64, base: &Base) -> Vec<(String, Vec<u8>, String)> {
@@ -254,7 +302,40 @@ pub fn mutants(tier: &str, seed: u64, base: &Base) -> Vec<(String, Vec<u8>, Stri
             pos += if pos < 200 || pos + 100 > n { 1 } else { stride };
         }
         // every count / length / flag field replaced by boundary values
-        let (fields, runs) = leb_fields(ty, b);
+        let (fields, runs, lists) = leb_fields(ty, b);
+        // every counted list resized *consistently*: the count and the elements change together, so the
+        // object still parses with an empty list, one element less, one element more
+        for (cs, cl, elems) in &lists {
+            let ne = elems.len();
+            let mut variants: Vec<(&str, usize, Vec<(usize, usize)>)> = vec![];
+            if ne >= 1 {
+                variants.push(("empty", 0, vec![]));
+                variants.push(("droplast", ne - 1, elems[..ne - 1].to_vec()));
+                let mut d = elems.clone();
+                d.push(elems[ne - 1]);
+                variants.push(("duplast", ne + 1, d));
+            }
+            if ne >= 2 {
+                variants.push(("dropfirst", ne - 1, elems[1..].to_vec()));
+                variants.push(("firstonly", 1, elems[..1].to_vec()));
+                let mut r = elems.clone();
+                r.reverse();
+                variants.push(("reversed", ne, r));
+            }
+            let body_start = cs + cl;
+            let body_end = elems.last().map(|e| e.1).unwrap_or(body_start);
+            for (name, cnt, keep) in variants {
+                let mut m = b[..*cs].to_vec();
+                leb(&mut m, cnt as u64);
+                for (a, z) in keep {
+                    m.extend_from_slice(&b[a..z]);
+                }
+                m.extend_from_slice(&b[body_end..]);
+                if m != *b {
+                    out.push((ty.to_string(), m, format!("list@{cs} {name}")));
+                }
+            }
+        }
         // every length-prefixed byte run (names, rights, encrypted metadata) resized *consistently*: the object
         // still parses, the run is shorter / longer than anything the library produces
         for (start, len, run) in runs {
